@@ -91,6 +91,15 @@ MUTANTS = [
     ("C05", "cuqi/distribution/_normal.py", "            s =  rng.normal(self.mean, self.std, (N,self.dim)).T", "            s =  np.random.normal(self.mean, self.std, (N,self.dim)).T"),
     ("C05", "cuqi/distribution/_gamma.py", "return rng.gamma(shape=self.shape, scale=self.scale, size=(N, self.dim)).T", "return rng.gamma(shape=self.shape, scale=self.rate, size=(N, self.dim)).T"),
     ("C05", "cuqi/distribution/_lognormal.py", "return np.exp(self._normal._sample(N,rng))", "return np.exp(self._normal._sample(N))"),
+    # C08
+    ("C08", "cuqi/experimental/mcmc/_hmc.py", "                alpha2 = n_2prime / max(1, (n_prime + n_2prime))", "                alpha2 = n_2prime / max(1, n_prime)"),
+    ("C08", "cuqi/sampler/_hmc.py", "                alpha2 = n_2prime / max(1, (n_prime + n_2prime))", "                alpha2 = n_2prime / max(1, n_prime)"),
+    ("C08", "cuqi/experimental/mcmc/_hmc.py", "            n_prime = int(log_u <= Ham_prime)     # if particle is in the slice", "            n_prime = int(log_u <= Ham)     # if particle is in the slice"),
+    ("C08", "cuqi/experimental/mcmc/_hmc.py", "                s_prime = s_2prime *\\\n                    int((dpoints@r_minus.T)>=0) * int((dpoints@r_plus.T)>=0)", "                s_prime = s_2prime *\\\n                    int((dpoints@r_minus.T)>=0)"),
+    ("C08", "cuqi/experimental/mcmc/_hmc.py", "        r_new += 0.5*epsilon*grad_new     # half-step", "        r_new += 0.0*epsilon*grad_new     # half-step"),
+    ("C08", "cuqi/experimental/mcmc/_hmc.py", "            self._current_alpha_ratio = alpha/n_alpha", "            self._current_alpha_ratio = alpha/max(n, 1)"),
+    ("C08", "cuqi/experimental/mcmc/_hmc.py", "            alpha2 = min(1, (n_prime/n)) #min(0, np.log(n_p) - np.log(n))", "            alpha2 = min(1, (n_prime/max(n+n_prime,1))) #min(0, np.log(n_p) - np.log(n))"),
+    ("C08", "cuqi/experimental/mcmc/_hmc.py", "                self.current_point = point_prime\n                self.current_target_logd = logd_prime\n                self.current_target_grad = np.copy(grad_prime)", "                self.current_point = point_prime\n                self.current_target_logd = logd_prime"),
     # C09
     ("C09", "cuqi/experimental/mcmc/_gibbs.py", "        for par_name in self.par_names:\n\n            # Set target for current parameter\n            self._set_target(par_name)", "        snapshot = dict(self.current_samples)\n        for par_name in self.par_names:\n\n            # Set target for current parameter\n            self.samplers[par_name].target = self.target(**{k: v for k, v in snapshot.items() if k != par_name})"),
     ("C09", "cuqi/experimental/mcmc/_gibbs.py", "                self._refresh_cached_evaluations(sampler)\n", "                pass\n"),
